@@ -56,3 +56,22 @@ func verifRLock(site string, l verifTryRLocker) {
 		f(site, l)
 	}
 }
+
+// VerifMapLayout describes the internal layout of m, for classifying the
+// states a test reached. It must only be called while no other goroutine uses m.
+func VerifMapLayout[K comparable, V any](m *Map[K, V]) (readLen int, amended bool, dirtyLen int, nilEntries int, expungedEntries int) {
+	read, _ := m.read.Load().(readOnly[K, V])
+	dirtyLen = -1
+	if m.dirty != nil {
+		dirtyLen = len(m.dirty)
+	}
+	for _, e := range read.m {
+		switch e.p {
+		case nil:
+			nilEntries++
+		case expunged:
+			expungedEntries++
+		}
+	}
+	return len(read.m), read.amended, dirtyLen, nilEntries, expungedEntries
+}
